@@ -13,6 +13,7 @@
 (*                    signs_and_cells_of_boundary_faces(faces)             *)
 (*   out.cn           nonzero entries <<node, cell>> of cell_nodes()       *)
 (*   out.div          per d: shape and entries <<r, c, v>> of divergence(d)*)
+(*   out.mutated      entries of the incidence changed by the queries      *)
 (* One invariant per clause of the property; the reference is              *)
 (* GridTopology (everything derived from the incidence alone).             *)
 (***************************************************************************)
@@ -41,6 +42,10 @@ SignsCells == Check("SignsCells",
     LET q == O.sc[k] IN q.ok /\ q.sgn = SignsOf(G, q.faces) /\ q.cells = CellsOf(G, q.faces))
 
 CellNodeMap == Check("CellNodeMap", Range(O.cn) = CellNodes(G))
+
+\* the queries only read: out.mutated = number of stored entries of the grid's cell-face incidence that differ after
+\* the queries from what they were before (the harness restores the incidence afterwards)
+QueriesPure == Check("QueriesPure", O.mutated = 0)
 
 VecDiv == Check("VecDiv",
   \A k \in 1..Len(O.div) :
